@@ -312,7 +312,8 @@ def run(ctx):
     seed = ctx.seed % 1000
     wts = ['legacy', 'p2sh-segwit', 'segwit']
     cases = []
-    mns = [(1, 2), (2, 2), (2, 3)] + ([] if q else [(1, 1), (3, 3), (2, 4), (3, 5)])
+    # (a key list of length 1 makes an ordinary single-signature wallet, not a 1-of-1 multisig: n starts at 2)
+    mns = [(1, 2), (2, 2), (2, 3)] + ([] if q else [(1, 3), (3, 3), (2, 4), (3, 5)])
     for wt in wts:
         for m, n in mns:
             perms = list(itertools.permutations(range(n))) if n <= (3 if q else 4) else \
@@ -331,10 +332,12 @@ def run(ctx):
     forms = ['obj', 'dict', 'raw']
     for wt in wts:
         for m, n in ([(2, 2), (2, 3)] if q else [(1, 2), (2, 2), (2, 3), (3, 3), (2, 4)] +
-                     ([(3, 5)] if wt == 'segwit' else [])):
+                     ([(3, 5)] if wt == 'segwit' else []) + ([(2, 5)] if wt != 'p2sh-segwit' else [])):
             # quick: ceremonies up to m+1 signing steps (n if smaller); thorough: one more step (a cosigner who
             # signs again / an extra cosigner after the threshold)
             ln = min(n, m + 1) + (0 if q else 1)
+            if (m, n) == (2, 5):
+                ln = 4          # two cosigners beyond the threshold (over-signed inputs handed on)
             cer.append(({'wt': wt, 'm': m, 'n': n, 'seed': seed, 'forms': forms, 'max_len': ln}, ln))
     for wt in wts:
         for opt in ('locktime', 'rbf', 'no_fee_sniping'):
